@@ -203,6 +203,7 @@ def run(chk):
         "from the AST."
     )
     chk.rule("R1", "every LIKE-family call passes autoescape=True or an escape= character")
+    chk.rule("R1v", "LIKE-based operators of the SQL back ends interpreted over terms for both pattern kinds the dispatcher hands over (python string, compiled constant expression): every LIKE-family call in the statement escapes its pattern (autoescape / escape=, hand-written escaping decoded back to the pattern)")
     chk.rule("R2", "the argument of text()/literal_column()/.op() is a string constant, never built from a runtime value")
     chk.rule("R3", "every compile_lit routes the Python value through sqa.literal(.., literal_execute=True) or sqa.cast")
     chk.rule("R3v", "compile_lit of every SQL back end interpreted over terms for numbers (negative, zero, nan, +-inf), null of every type, strings and booleans, const and non-const: compiles, and a negative number is self-delimiting")
@@ -368,7 +369,26 @@ def run(chk):
                         chk.ob("R3", mod, r, f"{q}: {norm(r)[:140]}", not kw_null,
                                f"compile_lit returns the SQL NULL keyword object (`{norm(r.value)[:60]}`) instead of a typed bound literal: "
                                "SQLAlchemy turns `col == <null()>` into `col IS NULL`, the null literal is no longer compared as data")  # fmt: skip
-    chk.floor("R1", "LIKE-family call sites", n_like, 11)
+    # R1v: the implementations themselves, interpreted (likesim): whatever helper / method value the source goes through
+    from .. import likesim
+    from ..interp import SymbolicBranch as _SBl
+    from .c17 import m_types_env as _mtel
+
+    like_decided = False
+    try:
+        _m = _mo(chk)
+        res_l = likesim.like_scenarios(repo, _m.regs, _mtel(_m))
+        for r_, desc, ok_, detail, decided in res_l:
+            if decided:
+                chk.ob("R1v", r_.module, r_.func, desc, ok_, detail)
+            else:
+                chk.undecided.append(f"R1v: {desc}: {detail}")
+        like_decided = bool(res_l) and all(x[4] for x in res_l)
+        chk.floor("R1v", "LIKE implementations x pattern kinds", len(res_l), 16)
+    except (AnalysisError, _SBl, KeyError) as e:
+        chk.undecided.append(f"R1v: the LIKE-based implementations could not be interpreted ({str(e)[:140]})")
+    if not like_decided:
+        chk.floor("R1", "LIKE-family call sites", n_like, 11)
     chk.floor("R2", "raw-text call sites", n_raw, 14)
     chk.floor("R3", "compile_lit definitions", n_lit, 2)
     chk.floor("R4", "compile() call sites", n_compile, 4)
